@@ -1337,3 +1337,51 @@ def end_flag_gates(ctx):
                 ctx.ok(key, rf.loc(0), 'every source pull reachable from read is behind `!%s`' % flag)
     if n == 0:
         ctx.anchor_missing('a single-stream reader with an end flag')
+
+
+@rule('COPYOUT-BEFORE-OK', ['C07', 'C05'], floor=1)
+def copyout_before_ok(ctx):
+    """BCJReader keeps converted bytes (and, at the end of the input, the unconvertible tail) in a buffer of its own and
+    copies them into the caller's buffer at the top of its loop. Whatever it returns as Ok must therefore come after
+    that copy-out step in the same call: every block that builds an Ok result is dominated by the branch that guards the
+    copy into the caller's buffer - except the one reached only through the true edge of `buf.is_empty()`. A shortcut
+    `if buf.is_empty() || end_reached { return Ok(0) }` in front of it reports end of stream while the last 1-3 bytes
+    (x86: up to 4, IA-64 more) still wait in the buffer, but only when the call that discovered the end of the input had
+    less room than the tail is long - it depends on the caller's read sizes."""
+    F = ctx.facts
+    fs = [f for f in read_impls(F) if f.self_adt and last_seg(f.self_adt) == 'BCJReader']
+    if not fs:
+        return ctx.anchor_missing('impl Read for BCJReader')
+    f = effective_read(F, fs[0]) if 'effective_read' in globals() else fs[0]
+    prov = Prov(f)
+    key = '%s:Ok-only-after-the-copy-out-step' % f.key
+    # the copy-out: copy_from_slice whose destination derives from the caller's buffer parameter
+    cp = []
+    for bi, t, c in f.calls():
+        if c.name == 'copy_from_slice' and any(x[0] == 'param' and x[1] == 2 for x in expr_walk(prov.operand(t['args'][0], 0, '%d:T' % bi))):
+            cp.append(bi)
+    if not cp:
+        return ctx.violation(key, f.loc(0), 'no copy into the caller\'s buffer found: anchor lost (fail closed)')
+    gates = [sb for sb, pol, cond in guards_of(f, cp[0], prov) if pol]
+    if not gates:
+        return ctx.violation(key, f.loc(cp[0]), 'the copy-out step is not guarded by a test: anchor lost (fail closed)')
+    gate = max(gates, key=lambda b: sum(1 for g in gates if f.dominates(g, b)))   # innermost guard
+    bad = None
+    nok = 0
+    for bi, b in enumerate(f.blocks):
+        if b['cleanup'] or bi not in f.reachable:
+            continue
+        for s in b['stmts']:
+            if s['k'] == 'assign' and s['lhs']['l'] == 0 and not s['lhs']['p'] and s['rv']['r'] == 'agg' and s['rv'].get('variant_name') == 'Ok':
+                nok += 1
+                if f.dominates(gate, bi):
+                    continue
+                gs = list(guards_of(f, bi, prov))
+                empty_only = any(pol and cond[0] == 'call' and last_seg(cond[1]) == 'is_empty' for sb, pol, cond in gs)
+                if not empty_only:
+                    bad = bi
+    if bad is not None:
+        ctx.violation(key, f.loc(bad), 'an Ok result is built without passing the copy-out step (%s) and not only for an empty caller buffer: bytes that '
+                      'wait in the reader\'s own buffer are never delivered when the end of the input was seen by an earlier call' % f.loc(gate))
+    else:
+        ctx.ok(key, f.loc(gate), '%d Ok result(s): all behind the copy-out step or for an empty buffer only' % nok)
